@@ -84,14 +84,14 @@ LineNumber expected_line_number(const Hunk& hunk)
 {
     auto line = hunk.old_file_range.start_line;
     if (hunk.old_file_range.number_of_lines == 0)
-        ++line;
+        line = saturating_add(line, 1);
     return line;
 }
 
 Location locate_hunk(const std::vector<Line>& content, const Hunk& hunk, bool ignore_whitespace, LineNumber offset, LineNumber max_fuzz, LineNumber min_line)
 {
     // Make a first best guess at where the from-file range is telling us where the hunk should be.
-    LineNumber offset_guess = expected_line_number(hunk) - 1 + offset;
+    LineNumber offset_guess = saturating_add(saturating_sub(expected_line_number(hunk), 1), offset);
 
     // If there's no lines surrounding this hunk - it will always succeed,
     // so there is no point in checking any further. Note that this check is
@@ -168,14 +168,14 @@ Location locate_hunk(const std::vector<Line>& content, const Hunk& hunk, bool ig
         // been written out by an earlier hunk, so the hunk can never be placed there.
         for (LineNumber line = std::max(offset_guess, min_line); static_cast<size_t>(line) < content.size(); ++line) {
             if (hunk_matches_starting_from_line(line))
-                return { line, fuzz, line - offset_guess };
+                return { line, fuzz, saturating_sub(line, offset_guess) };
         }
 
         // Then look for it in the negative direction
         // There is nothing to find past the end of the file, however large the line number in the patch is.
         for (LineNumber line = std::min(offset_guess, static_cast<LineNumber>(content.size())) - 1; line >= min_line; --line) {
             if (hunk_matches_starting_from_line(line))
-                return { line, fuzz, line - offset_guess };
+                return { line, fuzz, saturating_sub(line, offset_guess) };
         }
     }
 
